@@ -47,3 +47,10 @@ def check(chk, fx):
     from .. import width
     width.check(chk, fx, classes=("LEN", "DEPTH"), minimum=8)
     idxrule.report(chk, fx, lambda q: q.startswith("ctpg::"), "whole header", 40)
+
+
+def pre(chk):
+    """Type-level facts about what the rule operators build (stored functor type, contextual flag, right-side items):
+    decided before the witness grammars are extracted."""
+    from .. import tlw
+    tlw.run(chk, "RULE-T", "w_ruletype.cpp")
